@@ -10,15 +10,22 @@ namespace Aqv.Evm
 open Aqv Aqv.Big
 
 theorem specRead_length (data : Bytes) (off n : Nat) : (specRead data off n).length = n := by
-  unfold specRead; simp
+  unfold specRead; simp; omega
 
 theorem specRead_getElem? (data : Bytes) (off n i : Nat) :
     (specRead data off n)[i]? = if i < n then some (data.getD (off + i) 0) else none := by
   unfold specRead
-  simp only [List.getElem?_map]
+  simp only []
+  have hl : ((data.drop off).take n).length = min n (data.length - off) := by simp
+  rw [List.getElem?_append, hl]
   by_cases h : i < n
-  · simp [h, List.getD_eq_getElem?_getD, List.getElem?_drop]
-  · simp [h]
+  · rw [if_pos h]
+    by_cases h1 : i < min n (data.length - off)
+    · rw [if_pos h1, List.getElem?_take, if_pos h, List.getElem?_drop, List.getD_eq_getElem?_getD,
+        List.getElem?_eq_getElem (by omega)]; rfl
+    · rw [if_neg h1, List.getElem?_replicate, if_pos (by omega), List.getD_eq_getElem?_getD,
+        List.getElem?_eq_none (by omega)]; rfl
+  · rw [if_neg h, if_neg (by omega), List.getElem?_replicate, if_neg (by omega)]
 
 /-- slicing with clamped bounds and right-padding = reading with zeros past the end (getDataBig, makePush) -/
 theorem slicePad_eq (data : Bytes) (start size : Nat) :
@@ -58,7 +65,8 @@ theorem memGet_spec (mem : Bytes) (off size : Nat) (h : size ≠ 0 → off + siz
     memGet mem off size = some (specRead mem off size) := by
   unfold memGet
   by_cases hs : size = 0
-  · subst hs; simp [specRead]
+  · subst hs
+    rw [if_pos rfl, List.eq_nil_of_length_eq_zero (specRead_length mem off 0)]
   · have hc := h hs
     rw [if_neg hs, if_pos (by omega), if_pos hc]
     congr 1
@@ -70,18 +78,36 @@ theorem memGet_spec (mem : Bytes) (off size : Nat) (h : size ≠ 0 → off + siz
     · rw [if_neg hi, if_neg hi]
 
 theorem specWrite_length (mem : Bytes) (off : Nat) (bs : Bytes) : (specWrite mem off bs).length = mem.length := by
-  unfold specWrite; simp
+  unfold specWrite
+  split
+  · rfl
+  · simp; omega
 
 theorem specWrite_getElem? (mem : Bytes) (off : Nat) (bs : Bytes) (i : Nat) :
     (specWrite mem off bs)[i]? = if i < mem.length then
       (if off ≤ i ∧ i < off + bs.length then some (bs.getD (i - off) 0) else mem[i]?) else none := by
   unfold specWrite
-  rw [List.getElem?_mapIdx]
-  by_cases hi : i < mem.length
-  · rw [if_pos hi, List.getElem?_eq_getElem hi]
-    simp only [Option.map_some]
-    split <;> rfl
-  · rw [if_neg hi, List.getElem?_eq_none (by omega)]; rfl
+  by_cases hoff : off ≥ mem.length
+  · rw [if_pos hoff]
+    by_cases hi : i < mem.length
+    · rw [if_pos hi, if_neg (by omega)]
+    · rw [if_neg hi, List.getElem?_eq_none (by omega)]
+  · rw [if_neg hoff]
+    have hl1 : (mem.take off).length = off := by simp; omega
+    have hl2 : (bs.take (mem.length - off)).length = min (mem.length - off) bs.length := by simp
+    by_cases hi : i < mem.length
+    · rw [if_pos hi]
+      by_cases h1 : i < off
+      · rw [List.append_assoc, List.getElem?_append_left (by omega), List.getElem?_take, if_pos h1, if_neg (by omega)]
+      · rw [List.append_assoc, List.getElem?_append_right (by omega), hl1]
+        by_cases h2 : i < off + bs.length
+        · rw [List.getElem?_append_left (by omega), List.getElem?_take, if_pos (by omega), if_pos (by omega),
+            List.getD_eq_getElem?_getD, List.getElem?_eq_getElem (by omega)]; rfl
+        · rw [List.getElem?_append_right (by omega), hl2, List.getElem?_drop, if_neg (by omega)]
+          congr 1; omega
+    · rw [if_neg hi]
+      apply List.getElem?_eq_none
+      simp; omega
 
 theorem memSet_spec (mem : Bytes) (off size : Nat) (value : Bytes) (hv : value.length = size)
     (h : size ≠ 0 → off + size ≤ mem.length) : memSet mem off size value = some (specWrite mem off value) := by
